@@ -127,6 +127,26 @@ CLAIMED = {
             "Seeded search over CID kind x ordered file lists x --until x format x argument errors; evidence, not proof.",
             "Where the statement gives two exit codes both are accepted, but not a dependence on the file order.",
             "DESIGN.md section 5, C18"),
+    "C09": ("fault_enumeration",
+            "single-fault campaign on a stored document (deterministic simulation's fault-injection half): generated valid "
+            "CIDs stored as rows/csv/ods/xlsx in simulated storage, 0-4 meaning-preserving rewrites and at most one defect "
+            "from a catalogue of ~50 structural defects at an applicable row; differential oracle for rewrites, "
+            "'InterfaceError naming that row' for defects",
+            "Seeded fault enumeration plus an exhaustive sweep of every catalogue defect at every applicable row of a set of "
+            "base CIDs; weak fit for the technique (no schedule dimension beyond storage and chunking), said so in DESIGN.md.",
+            "Base CIDs come from a conservative grammar sound by construction; the catalogue is limited to what the "
+            "statement lists.",
+            "DESIGN.md section 5, C09"),
+    "C10": ("fault_enumeration",
+            "fault enumeration under the simulator: every cell of valid base CIDs and data replaced one at a time by each "
+            "member of a hostile pool (exhaustive sweep), seeded pairs, and container faults (truncate, bit flip, "
+            "undecodable bytes, open quote, short record) on stored CID / data files incl. the repository's xls/ods/xlsx "
+            "fixtures; oracle: only InterfaceError / DataError escape, main() never answers 4",
+            "Exhaustive single-cell sweep over 4 base CIDs and their data plus seeded pairs and container faults; "
+            "evidence, not proof outside the swept sub-space.",
+            "Both error classes are allowed in both phases; child processes run under a 2 GiB address-space limit so that "
+            "giant allocations surface as MemoryError instead of killing the check.",
+            "DESIGN.md section 5, C10"),
 }
 
 PENDING = {key: "designed as a simulation target in DESIGN.md section 5; its check is still under construction and is "
